@@ -207,16 +207,35 @@ fn box_all<W: GuardLike + Wrap<R> + 'static, R>(gs: Vec<R>) -> Vec<BoxGuard> {
 #[derive(Debug, Clone, Copy, PartialEq, Eq)]
 pub struct CbError;
 
-/// Take the offered guards back out of the table (`hold`), in offered order.
-fn take_back(cx: &sched::AgentCtx, offered: &[Gkv]) -> Vec<BoxGuard> {
-    let mut t = cx.run.table.lock().unwrap();
-    offered
-        .iter()
-        .map(|(g, _, _)| t.remove(g).expect("harness bug: `hold` but an offered guard left the table"))
-        .collect()
+/// The guards a callback still owns when it returns (`hold`). Dropped in offered order when the callback
+/// returns or unwinds; every drop is bracketed by the harness-side events `DropBegin` / `GuardGone`, so
+/// the monitors know exactly which guards exist without relying on where the library parks.
+struct Held {
+    cx: std::sync::Arc<sched::AgentCtx>,
+    gs: std::collections::VecDeque<(Gid, BoxGuard)>,
 }
 
-fn finish_callback(res: CbRes, held: Vec<BoxGuard>) -> Result<(), CbError> {
+impl Drop for Held {
+    fn drop(&mut self) {
+        while let Some((gid, g)) = self.gs.pop_front() {
+            self.cx.push_event(Event::DropBegin(gid));
+            drop(g);
+            self.cx.push_event(Event::GuardGone(gid));
+        }
+    }
+}
+
+/// Take the offered guards back out of the table (`hold`), in offered order.
+fn take_back(cx: &std::sync::Arc<sched::AgentCtx>, offered: &[Gkv]) -> Held {
+    let mut t = cx.run.table.lock().unwrap();
+    let gs = offered
+        .iter()
+        .map(|(g, _, _)| (*g, t.remove(g).expect("harness bug: `hold` but an offered guard left the table")))
+        .collect();
+    Held { cx: cx.clone(), gs }
+}
+
+fn finish_callback(res: CbRes, held: Option<Held>) -> Result<(), CbError> {
     // `held` is dropped when this function returns or unwinds: the implicit drop of the
     // guards the callback still owns. Every drop goes through `_unlock` and parks at `Entries`.
     let _held = held;
@@ -237,7 +256,7 @@ pub fn sync_callback(gs: Vec<BoxGuard>) -> Result<(), CbError> {
         Cmd::CbReturn(r, h) => (r, h),
         other => panic!("harness bug: command {:?} to an agent inside a sync callback", other),
     };
-    let held = if hold { take_back(&cx, &offered) } else { Vec::new() };
+    let held = if hold { Some(take_back(&cx, &offered)) } else { None };
     finish_callback(res, held)
 }
 
@@ -279,7 +298,7 @@ impl Future for CbFuture {
             return Poll::Pending;
         }
         let (res, hold) = cx.take_cbret().expect("harness bug: callback future re-polled without cbret");
-        let held = if hold { take_back(&cx, &self.offered) } else { Vec::new() };
+        let held = if hold { Some(take_back(&cx, &self.offered)) } else { None };
         Poll::Ready(finish_callback(res, held))
     }
 }
